@@ -137,6 +137,9 @@ func tryIfs(info *types.Info, fd *ast.FuncDecl) (skipIf, abortIf *ast.IfStmt) {
 	return
 }
 
+// tryPredRule: rule id under which checkTryPredicates records (C21 reuses it as R21e).
+var tryPredRule = "R05a"
+
 func (c *Ctx) checkTryPredicates(info *types.Info, fd *ast.FuncDecl, prefix string) {
 	fn := prefix + fd.Name.Name
 	skipIf, abortIf := tryIfs(info, fd)
@@ -227,7 +230,7 @@ func (c *Ctx) checkTryPredicates(info *types.Info, fd *ast.FuncDecl, prefix stri
 	}
 	check := func(is *ast.IfStmt, what string, want func(e int64, or bool) bool) {
 		if is == nil {
-			c.Viol("R05a", fn+":"+what, fd.Pos(), "no %s branch found in %s (an if over the exit number and procs[next].OperatorLogicOr)", what, fd.Name.Name)
+			c.Viol(tryPredRule, fn+":"+what, fd.Pos(), "no %s branch found in %s (an if over the exit number and procs[next].OperatorLogicOr)", what, fd.Name.Name)
 			return
 		}
 		bad := ""
@@ -236,7 +239,7 @@ func (c *Ctx) checkTryPredicates(info *types.Info, fd *ast.FuncDecl, prefix stri
 			for _, or := range []bool{false, true} {
 				got, unk := evalEff(e, or)
 				if unk != "" {
-					c.Undecided("R05a", fn+":"+what, is.Cond.Pos(), "leaf %q of the %s predicate is neither a comparison of the exit number with a constant nor procs[_].OperatorLogicOr", unk, what)
+					c.Undecided(tryPredRule, fn+":"+what, is.Cond.Pos(), "leaf %q of the %s predicate is neither a comparison of the exit number with a constant nor procs[_].OperatorLogicOr", unk, what)
 					return
 				}
 				if got != want(e, or) {
@@ -244,7 +247,7 @@ func (c *Ctx) checkTryPredicates(info *types.Info, fd *ast.FuncDecl, prefix stri
 				}
 			}
 		}
-		c.Check(bad == "", "R05a", fn+":"+what, is.Cond.Pos(), "%s predicate `%s` agrees with the documented table on exit∈[-1,3]×||∈{F,T} %s", what, c.src(is.Cond), bad)
+		c.Check(bad == "", tryPredRule, fn+":"+what, is.Cond.Pos(), "%s predicate `%s` agrees with the documented table on exit∈[-1,3]×||∈{F,T} %s", what, c.src(is.Cond), bad)
 	}
 	check(skipIf, "skip", func(e int64, or bool) bool { return e < 1 && or })
 	check(abortIf, "abort", func(e int64, or bool) bool { return e > 0 && !or })
@@ -291,7 +294,7 @@ func (c *Ctx) checkTryPredicates(info *types.Info, fd *ast.FuncDecl, prefix stri
 			}
 			return true
 		})
-		c.Check(okIdx, "R05a", fn+":"+what+":index", is.Cond.Pos(), "the || flag tested by the %s predicate is that of the next process (index defined as <current>+1)", what)
+		c.Check(okIdx, tryPredRule, fn+":"+what+":index", is.Cond.Pos(), "the || flag tested by the %s predicate is that of the next process (index defined as <current>+1)", what)
 	}
 	// the skip/abort tests are only made when a next process exists: both ifs are guarded by next < len
 	for what, is := range map[string]*ast.IfStmt{"skip": skipIf, "abort": abortIf} {
@@ -311,7 +314,7 @@ func (c *Ctx) checkTryPredicates(info *types.Info, fd *ast.FuncDecl, prefix stri
 				}
 			}
 		}
-		c.Check(guarded, "R05a", fn+":"+what+":bounds", is.Pos(), "the %s test is made only when a next process exists (guard next < len(*procs)); otherwise the flag read indexes past the list", what)
+		c.Check(guarded, tryPredRule, fn+":"+what+":bounds", is.Pos(), "the %s test is made only when a next process exists (guard next < len(*procs)); otherwise the flag read indexes past the list", what)
 	}
 }
 
